@@ -41,6 +41,72 @@ type dNest struct {
 	N  int
 }
 
+// Taggable shapes: the tags of the value under test are set per case
+var curTags []encrypt.PointerTag
+
+type tagMap map[string]interface{}
+
+func (t tagMap) Tags() ([]encrypt.PointerTag, error) { return curTags, nil }
+
+// a struct with a Taggable map field next to ordinary tagged fields
+type dTagHolder struct {
+	Attrs tagMap
+	L     dLeaf
+	N     int
+}
+
+// mkTagMap builds a map whose keys carry canaries, and a tag list over present and absent keys in a
+// random order: keys tagged public keep their value, everything else must not survive
+func mkTagMap(c *canary, p *prng) (tagMap, []encrypt.PointerTag) {
+	m := tagMap{}
+	var tags []encrypt.PointerTag
+	ops := []encrypt.FilterOperation{"", encrypt.RedactOperation, encrypt.EncryptOperation, encrypt.HmacSha256Operation}
+	nk := 2 + p.intn(4)
+	for i := 0; i < nk; i++ {
+		k := fmt.Sprintf("k%d", i)
+		switch p.intn(4) {
+		case 0: // public
+			m[k] = c.pub()
+			tags = append(tags, encrypt.PointerTag{Pointer: "/" + k, Classification: encrypt.PublicClassification})
+		case 1:
+			m[k] = c.prot()
+			tags = append(tags, encrypt.PointerTag{Pointer: "/" + k, Classification: encrypt.SensitiveClassification, Filter: ops[p.intn(4)]})
+		case 2:
+			m[k] = c.prot()
+			tags = append(tags, encrypt.PointerTag{Pointer: "/" + k, Classification: encrypt.SecretClassification, Filter: ops[p.intn(4)]})
+		default: // untagged key of a Taggable map
+			m[k] = c.prot()
+		}
+	}
+	// optional attributes this value lacks
+	for i := p.intn(3); i > 0; i-- {
+		tags = append(tags, encrypt.PointerTag{Pointer: fmt.Sprintf("/absent%d", i), Classification: encrypt.SecretClassification})
+	}
+	if p.chance(1, 2) {
+		m["nested"] = map[string]interface{}{"in": c.prot(), "other": c.prot()}
+		tags = append(tags, encrypt.PointerTag{Pointer: "/nested/in", Classification: encrypt.SensitiveClassification})
+	}
+	for i := len(tags) - 1; i > 0; i-- {
+		j := p.intn(i + 1)
+		tags[i], tags[j] = tags[j], tags[i]
+	}
+	return m, tags
+}
+
+// a type listed in Filter.IgnoreTypes (as a pointer type), reached directly, as a map value and behind an
+// interface-typed field
+type dMask struct {
+	Owner string
+	Raw   []byte
+}
+
+type dIgn struct {
+	Direct *dMask
+	M      map[string]interface{}
+	Any    interface{}
+	L      dLeaf
+}
+
 // flakyWrapper fails its n-th Encrypt call (a transient KMS failure)
 type flakyWrapper struct {
 	wrapping.Wrapper
@@ -152,7 +218,9 @@ func deepShapes(p *prng, n int, st *stats, oracle func(string, ...any)) {
 		c := &canary{}
 		var payload interface{}
 		kind := ""
-		switch p.intn(17) {
+		curTags = nil
+		f.IgnoreTypes = nil
+		switch p.intn(21) {
 		case 0:
 			l := mkLeaf(c, p)
 			payload, kind = &l, "ptr-struct"
@@ -201,6 +269,23 @@ func deepShapes(p *prng, n int, st *stats, oracle func(string, ...any)) {
 		case 15:
 			nst := &dNest{N: 1, M: map[string]interface{}{"ss": [][]dLeaf{{mkLeaf(c, p)}}, "sm": [][]map[string]interface{}{{{"k": c.prot()}}}}}
 			payload, kind = nst, "map-with-slice-of-slices"
+		case 16:
+			m, tags := mkTagMap(c, p)
+			curTags = tags
+			payload, kind = m, "taggable-map"
+		case 17:
+			m, tags := mkTagMap(c, p)
+			curTags = tags
+			payload, kind = &dTagHolder{Attrs: m, L: mkLeaf(c, p), N: 1}, "taggable-map-field"
+		case 19:
+			// values of an ignored type: whatever the filter does with them, it does it to its private copy
+			f.IgnoreTypes = []reflect.Type{reflect.TypeOf(&dMask{})}
+			payload, kind = &dIgn{Direct: &dMask{Owner: c.pub(), Raw: []byte(c.pub())}, M: map[string]interface{}{"mask": &dMask{Owner: "mask-owner", Raw: []byte("mask-raw")}, "s": c.prot()},
+				Any: &dMask{Owner: "any-owner", Raw: []byte("any-raw")}, L: mkLeaf(c, p)}, "ignored-types"
+		case 18:
+			m, tags := mkTagMap(c, p)
+			curTags = tags
+			payload, kind = []*dTagHolder{{Attrs: m, L: mkLeaf(c, p)}}, "slice-with-taggable-map-field"
 		default:
 			nst := &dNest{N: 1, MS: map[string]string{"k": c.prot()}}
 			payload, kind = nst, "ptr-nested-sparse"
@@ -262,6 +347,45 @@ func deepShapes(p *prng, n int, st *stats, oracle func(string, ...any)) {
 		for _, s := range strings.Split(inS.String(), "\x00") {
 			if strings.HasPrefix(s, "CANARY-pub-") && !strings.Contains(outS.String(), s+"\x00") {
 				once("C10", kind, "a public value was not preserved")
+			}
+		}
+		// Taggable maps: every tagged value comes out as its tag dictates (the operation given, else the
+		// classification's default), also for pointers into a nested map
+		if curTags != nil && fw == nil {
+			var om tagMap
+			switch v := got.Payload.(type) {
+			case tagMap:
+				om = v
+			case *dTagHolder:
+				om = v.Attrs
+			case []*dTagHolder:
+				om = v[0].Attrs
+			}
+			for _, t := range curTags {
+				var cur interface{} = map[string]interface{}(om)
+				okPath := true
+				for _, seg := range strings.Split(strings.TrimPrefix(t.Pointer, "/"), "/") {
+					mm, isM := cur.(map[string]interface{})
+					if !isM {
+						okPath = false
+						break
+					}
+					if cur, okPath = mm[seg]; !okPath {
+						break
+					}
+				}
+				sv, isS := cur.(string)
+				if !okPath || !isS {
+					continue
+				}
+				opn := t.Filter
+				if opn == "" {
+					opn = map[encrypt.DataClassification]encrypt.FilterOperation{encrypt.SensitiveClassification: encrypt.EncryptOperation, encrypt.SecretClassification: encrypt.RedactOperation}[t.Classification]
+				}
+				want := map[encrypt.FilterOperation]string{encrypt.RedactOperation: "[REDACTED]", encrypt.EncryptOperation: "encrypted:", encrypt.HmacSha256Operation: "hmac-sha256:"}[opn]
+				if t.Classification != encrypt.PublicClassification && want != "" && !strings.HasPrefix(sv, want) {
+					once("C09", kind+"/op", fmt.Sprintf("the value tagged %s (%s,%q) came out as %.24q, its tag dictates %q", t.Pointer, t.Classification, t.Filter, sv, want))
+				}
 			}
 		}
 		if inShape.String() != outShape.String() {
